@@ -274,7 +274,8 @@ def arg_for(call, callee, name):
         if k.arg == name:
             return k.value
     params = list(callee.params)
-    if callee.cls is not None and params and (isinstance(call.func, ast.Attribute) or callee.name == '__init__'):
+    static = any(isinstance(d, ast.Name) and d.id == 'staticmethod' for d in getattr(callee.node, 'decorator_list', []))
+    if callee.cls is not None and params and not static and (isinstance(call.func, ast.Attribute) or callee.name == '__init__'):
         params = params[1:]
     if name in params:
         i = params.index(name)
